@@ -103,13 +103,15 @@ func (C07Plain2) TableName() string { return "rc_plain2" }
 func (C07Plain3) TableName() string { return "rc_plain3" }
 
 var c07AllModels = []interface{}{&RCompany{}, &RProfile{}, &RPet{}, &RLang{}, &RToy{}, &RUser{}, &C07Plain1{}, &C07Plain2{}, &C07Plain3{},
-	&C07ScA{}, &C07ScB{}, &C07ScH{}, &C07ScN{}, &C07ScO{}, &C07ScS{}, &C07ScC{}, &C07ScD{}, &C07ScE{}, &C07ScQ{}, &C07Zoo{}, &C07FailHook{}}
+	&C07ScA{}, &C07ScB{}, &C07ScH{}, &C07ScN{}, &C07ScO{}, &C07ScS{}, &C07ScC{}, &C07ScD{}, &C07ScE{}, &C07ScQ{}, &C07Zoo{}, &C07FailHook{}, &C07Cat{}, &C07ItemTag{}, &C07Item{}}
 var c07AllTables = []string{"r_companies", "r_profiles", "r_pets", "r_langs", "r_toys", "r_users", "r_user_langs",
-	"rc_plain1", "rc_plain2", "rc_plain3", "sc_as", "sc_bs", "sc_hs", "sc_ns", "sc_os", "sc_ss", "sc_cs", "sc_ds", "sc_es", "sc_qs", "c07_zoos", "c07_fail_hooks"}
+	"rc_plain1", "rc_plain2", "rc_plain3", "sc_as", "sc_bs", "sc_hs", "sc_ns", "sc_os", "sc_ss", "sc_cs", "sc_ds", "sc_es", "sc_qs", "c07_zoos", "c07_fail_hooks", "c07_cats", "c07_item_tags", "c07_items"}
 
-func c07Dump(sqlDB *sql.DB) map[string][]string {
+func c07Dump(sqlDB *sql.DB) map[string][]string { return c07DumpTables(sqlDB, c07AllTables) }
+
+func c07DumpTables(sqlDB *sql.DB, base []string) map[string][]string {
 	out := map[string][]string{}
-	tables := append([]string{}, c07AllTables...)
+	tables := append([]string{}, base...)
 	// tables created by the programs themselves (AutoMigrate through the shared handle): their names and their rows
 	if rows, err := sqlDB.Query("SELECT name FROM sqlite_master WHERE type = 'table' AND name LIKE 'c07_dyn_%' ORDER BY name"); err == nil {
 		var dyn []string
@@ -208,25 +210,26 @@ func c07ShowUsers(us []RUser) string {
 // ---------- one goroutine's program ----------
 
 type c07RaceWorker struct {
-	g     int
-	base  uint
-	rng   *rand.Rand
-	n     uint   // ids handed out
-	users []uint // own user ids created so far
-	as    []uint // own C07ScA ids
-	ns    []uint
-	ps    []uint // own plain ids
-	zs    []uint // own zoo ids
-	ro    bool   // read-only program (several connections)
-	hmodel bool  // the shared handle carries Model(&C07Zoo{})
-	inTx   bool  // the current operation runs inside a transaction the goroutine opened (derivation begin / transaction)
-	nohold bool  // never keep a connection over several statements (see c07_derive.go, environment rule)
-	only  string
-	kinds map[string]bool
-	errs  int
-	first bool
+	g       int
+	base    uint
+	rng     *rand.Rand
+	n       uint   // ids handed out
+	users   []uint // own user ids created so far
+	as      []uint // own C07ScA ids
+	ns      []uint
+	ps      []uint // own plain ids
+	zs      []uint // own zoo ids
+	ro      bool   // read-only program (several connections)
+	hmodel  bool   // the shared handle carries Model(&C07Zoo{})
+	inTx    bool   // the current operation runs inside a transaction the goroutine opened (derivation begin / transaction)
+	nohold  bool   // never keep a connection over several statements (see c07_derive.go, environment rule)
+	only    string
+	kinds   map[string]bool
+	errs    int
+	first   bool
 	opIdx   int      // index of the operation being run (family "fail": same kind for all goroutines at one index)
 	failSeq [][2]int // family "fail": (kind, finisher variant) per operation index
+	rot     int      // family "fresh": rotation of the goroutine -> model-group assignment
 }
 
 func (w *c07RaceWorker) next() uint { w.n++; return w.base + w.n }
@@ -635,8 +638,8 @@ type c07RaceRun struct {
 	kinds   map[string]bool
 	errs    int
 	hung    bool
-	stacks  string   // all goroutine stacks at the moment the watchdog fired
-	panics  []string // operations that panicked (recovered per goroutine)
+	stacks  string         // all goroutine stacks at the moment the watchdog fired
+	panics  []string       // operations that panicked (recovered per goroutine)
 	cfg     []string       // fingerprint of the shared handle(s) after the program
 	traces  map[string]int // statement shapes traced to the shared handle's logger
 }
@@ -654,13 +657,24 @@ func c07RunRaceProg(p c07RaceProg, serial bool) c07RaceRun {
 	}
 	nohold := (c07ProgPrepOn(p) && !(p.Family == "zoo" && conns >= p.G)) || p.Family == "fail"
 	sqlDB.SetMaxOpenConns(conns)
-	if err := setup.AutoMigrate(c07AllModels...); err != nil {
+	if p.Family == "fresh" {
+		ms, _ := c07FreshModels()
+		if err := setup.AutoMigrate(ms...); err != nil {
+			panic(err)
+		}
+	} else if err := setup.AutoMigrate(c07AllModels...); err != nil {
 		panic(err)
 	}
 	if p.Family == "zoo" {
 		for g := 0; g < p.G; g++ {
 			c07ZooSeed(setup, g)
 		}
+	}
+	if p.Family == "carry" {
+		for g := 0; g < p.G; g++ {
+			c07CarrySeed(setup, g)
+		}
+		c07CarrySeed(setup, c07CarryStaticG)
 	}
 	var failSeq [][2]int
 	if p.Family == "fail" {
@@ -704,6 +718,9 @@ func c07RunRaceProg(p c07RaceProg, serial bool) c07RaceRun {
 			return shared.Session(&gorm.Session{PrepareStmt: true})
 		case "debug":
 			return shared.Debug()
+		case "carry": // a handle that carries a random subset of Order / Select / Joins / Preload / Group / … (c07_carry.go)
+			h, _ := c07CarryHandle(shared, p.Seed, conns == 1 && !c07CarryStatic(p.Seed))
+			return h
 		default:
 			return shared
 		}
@@ -720,6 +737,10 @@ func c07RunRaceProg(p c07RaceProg, serial bool) c07RaceRun {
 			return w.opZoo(h)
 		case "fail":
 			return w.opFail(h)
+		case "carry":
+			return w.opCarry(h)
+		case "fresh":
+			return w.opFresh(h)
 		default:
 			return w.opPlain(h)
 		}
@@ -731,11 +752,14 @@ func c07RunRaceProg(p c07RaceProg, serial bool) c07RaceRun {
 		}
 		return w.derived(h, p.Derive, func(d *gorm.DB) string { return op0(w, d) })
 	}
-	if !p.Cold {
+	if !p.Cold && p.Family != "fresh" {
 		// warm: every operation kind, serially, on a reserved id block, before the goroutines start
 		w := &c07RaceWorker{g: 90, base: 900000, rng: rand.New(rand.NewSource(p.Seed + 5)), kinds: map[string]bool{}, ro: conns > 1, only: p.Only, nohold: nohold, hmodel: p.Handle == "model" && conns > 1, failSeq: failSeq}
 		if p.Family == "zoo" {
 			c07ZooSeed(setup, 89)
+		}
+		if p.Family == "carry" {
+			c07CarrySeed(setup, 89)
 		}
 		hw := mk()
 		for _, m := range c07AllModels {
@@ -762,7 +786,7 @@ func c07RunRaceProg(p c07RaceProg, serial bool) c07RaceRun {
 	workers := make([]*c07RaceWorker, p.G)
 	outs := make([][]string, p.G)
 	for g := 0; g < p.G; g++ {
-		workers[g] = &c07RaceWorker{g: g, base: uint(g+1) * 10000, rng: rand.New(rand.NewSource(p.Seed*131 + int64(g))), kinds: map[string]bool{}, first: true, ro: conns > 1, only: p.Only, nohold: nohold, hmodel: p.Handle == "model" && conns > 1, failSeq: failSeq}
+		workers[g] = &c07RaceWorker{g: g, base: uint(g+1) * 10000, rng: rand.New(rand.NewSource(p.Seed*131 + int64(g))), kinds: map[string]bool{}, first: true, ro: conns > 1, only: p.Only, nohold: nohold, hmodel: p.Handle == "model" && conns > 1, failSeq: failSeq, rot: int(p.Seed % 8)}
 	}
 	ident := c07Identify(shared, handles)
 	// "stampede" (half of the cold programs): every goroutine's very first action is Statement.Parse of every model type of
@@ -777,10 +801,20 @@ func c07RunRaceProg(p c07RaceProg, serial bool) c07RaceRun {
 		fam = []interface{}{&C07Zoo{}, &C07ZooLite{}}
 	case "fail":
 		fam = []interface{}{&C07Plain1{}, &C07Plain2{}, &C07Plain3{}, &C07FailHook{}}
+	case "fresh":
+		fam = nil
+	case "carry":
+		fam = []interface{}{&C07Cat{}, &C07ItemTag{}, &C07Item{}}
+		// the parse phase of this family is over before the goroutines start (no parser runs concurrently: F10 / F12 cannot
+		// apply); "cold" = nothing else has been used yet (first use of every spelling / finisher happens concurrently)
+		for _, m := range fam {
+			st := &gorm.Statement{DB: shared}
+			_ = st.Parse(m)
+		}
 	default:
 		fam = []interface{}{&C07Plain1{}, &C07Plain2{}, &C07Plain3{}}
 	}
-	stampede := p.Cold && p.Seed%2 == 0
+	stampede := p.Cold && p.Seed%2 == 0 && p.Family != "carry" && p.Family != "fresh"
 	ptrs := make([]map[string]string, p.G)
 	var barrier *c07Barrier
 	if !serial && p.Family == "fail" {
@@ -868,6 +902,12 @@ func c07RunRaceProg(p c07RaceProg, serial bool) c07RaceRun {
 		}
 	}
 	res.outs = outs
+	if p.Family == "fresh" {
+		res.dump = c07DumpTables(sqlDB, func() []string { _, ts := c07FreshModels(); return ts }())
+		res.cfg = append(c07Fingerprint(shared, handles, ident), c07FreshSchemaPrints(shared, len(c07FreshGroups))...)
+		res.traces = tlog.snapshot()
+		return res
+	}
 	res.dump = c07Dump(sqlDB)
 	res.cfg = c07Fingerprint(shared, handles, ident)
 	res.traces = tlog.snapshot()
@@ -998,7 +1038,7 @@ func c07ClassifyPair(p c07RacePair, prog c07RaceProg) string {
 	if p.A == "?" && p.B == "?" {
 		return "unrestorable"
 	}
-	coldRelated := prog.Cold && prog.Family != "unrelated"
+	coldRelated := prog.Cold && prog.Family != "unrelated" && prog.Family != "carry" && prog.Family != "fresh"
 	pa, pb := c07IsParser(p.A) || p.A == "?", c07IsParser(p.B) || p.B == "?"
 	if coldRelated && pa && pb && !(p.A == "schema.Schema.parseRelation" && p.B == "schema.Schema.parseRelation") {
 		return "F10"
@@ -1114,7 +1154,12 @@ func c07RaceChild(r *Result, rng *rand.Rand, tier string) {
 			}
 		}
 		if o.Mismatch == "" && o.Inconclusive == "" && canon(ref.dump) != canon(got.dump) {
-			for _, t := range c07AllTables {
+			var dumpTables []string
+			for t := range ref.dump {
+				dumpTables = append(dumpTables, t)
+			}
+			sort.Strings(dumpTables)
+			for _, t := range dumpTables {
 				if canon(ref.dump[t]) != canon(got.dump[t]) {
 					o.Mismatch = fmt.Sprintf("final rows of %s differ: serial=%v concurrent=%v", t, ref.dump[t], got.dump[t])
 					break
@@ -1268,7 +1313,7 @@ func c07GenRaceProg(rng *rand.Rand) c07RaceProg {
 	if c07Thorough {
 		gs = []int{2, 4, 8, 16, 32}
 	}
-	fams := []string{"related", "mutual", "mutual", "mutual", "unrelated", "readers", "zoo", "zoo", "zoo", "zoo", "fail", "fail", "fail"}
+	fams := []string{"related", "mutual", "mutual", "mutual", "unrelated", "readers", "zoo", "zoo", "zoo", "zoo", "fail", "fail", "fail", "carry", "carry", "carry", "carry", "fresh", "fresh", "fresh"}
 	p := c07RaceProg{Seed: rng.Int63n(1 << 40), G: gs[rng.Intn(len(gs))], Cold: rng.Intn(2) == 0, Family: fams[rng.Intn(len(fams))],
 		Prepare: rng.Intn(3) == 0, Ops: 4 + rng.Intn(8)}
 	switch p.Family {
@@ -1280,6 +1325,17 @@ func c07GenRaceProg(rng *rand.Rand) c07RaceProg {
 		// read-only on several connections: scans really overlap.  A handle that carries Model(&obj) shares the caller's OBJECT
 		// between the goroutines (gorm writes keys / timestamps back into it): only used by read-only programs
 		if rng.Intn(2) == 0 || p.Handle == "model" {
+			p.Conns = []int{2, 4, 8}[rng.Intn(3)]
+		}
+	case "fresh":
+		p.Handle = []string{"db", "session", "ctx"}[rng.Intn(3)]
+		p.Cold = true
+		p.G = []int{2, 4, 8, 8}[rng.Intn(4)] // one private group of model types per goroutine
+		p.Ops = 3 + rng.Intn(5)
+	case "carry":
+		p.Handle = "carry"
+		p.Cold = rng.Intn(3) != 0
+		if rng.Intn(3) == 0 { // read-only on several connections (the handle may then carry Model(&obj))
 			p.Conns = []int{2, 4, 8}[rng.Intn(3)]
 		}
 	case "fail":
@@ -1310,6 +1366,9 @@ func c07GenRaceProg(rng *rand.Rand) c07RaceProg {
 	}
 	if p.G >= 8 && p.Family != "fail" {
 		p.Ops = 3 + rng.Intn(4)
+	}
+	if p.Family == "fresh" && p.G > len(c07FreshGroups) {
+		p.G = len(c07FreshGroups)
 	}
 	if p.Family == "zoo" && c07ProgPrepOn(p) && c07HoldModes[p.Derive] {
 		p.Conns = p.G // prepared statements inside per-goroutine transactions: one connection per goroutine, read-only
@@ -1538,6 +1597,15 @@ func c07RaceParent(r *Result, rng *rand.Rand, tier string) {
 		// finishers called directly on the shared handle (a handle that carries a Model): the receiver is the shared *gorm.DB itself
 		c07RaceProg{Seed: rng.Int63n(1 << 30), G: 8, Cold: rng.Intn(2) == 0, Family: "zoo", Handle: "model", Ops: 8, Conns: 8, Only: "30,30,30,9,10,5"},
 		c07RaceProg{Seed: rng.Int63n(1 << 30), G: 8, Cold: false, Family: "zoo", Handle: "model", Ops: 6, Conns: 8, Only: "30"},
+	)
+	progs = append(progs,
+		// round 4: finishers DIRECTLY on a handle that carries Order / Select / … (odd seed), chained finishers with every column
+		// spelling on a writing program (even seed), and simultaneous first use of a DIFFERENT fresh group of model types per goroutine
+		c07RaceProg{Seed: rng.Int63n(1<<30)*2 + 1, G: 8, Cold: true, Family: "carry", Handle: "carry", Ops: 8, Conns: 4},
+		c07RaceProg{Seed: rng.Int63n(1<<30)*2 + 1, G: 4, Cold: true, Family: "carry", Handle: "carry", Ops: 10},
+		c07RaceProg{Seed: rng.Int63n(1<<30) * 2, G: 8, Cold: true, Family: "carry", Handle: "carry", Ops: 8},
+		c07RaceProg{Seed: rng.Int63n(1 << 30), G: 8, Cold: true, Family: "fresh", Handle: "db", Ops: 4},
+		c07RaceProg{Seed: rng.Int63n(1 << 30), G: 4, Cold: true, Family: "fresh", Handle: "session", Ops: 5},
 	)
 	progs = append(progs, c07FailFixedProgs(rng)...)
 	if dev := os.Getenv("C07_DEV_PROGS"); dev != "" { // development aid: run exactly these programs
